@@ -10,6 +10,7 @@ import logbook
 import logbook.more
 import logbook.base
 import argparse
+import inspect
 import os
 import sys
 import platform
@@ -378,11 +379,12 @@ def _genotype(gene: str, output: Optional[Any], args) -> None:
             log.warn("         Results might not be biologically relevant!")
 
         try:
-            params = {
+            run_args = {
                 k: v
                 for k, v in vars(args).items()
                 if k in ["solver", "reference", "multiple_warn_level", "genome"]
             }
+            params = {}
             if args.param:
                 for pl in args.param:
                     for p in pl:
@@ -390,6 +392,10 @@ def _genotype(gene: str, output: Optional[Any], args) -> None:
                             raise AldyException(f"Invalid parameter {p}")
                         k, v = p.split("=", 1)
                         params[k.replace("-", "_")] = v
+            # --param names that are not model parameters are ignored: they must
+            # not end up as arguments of the run itself (solver, genome, debug...)
+            own = set(inspect.signature(genotype).parameters)
+            params = dict(run_args, **{k: v for k, v in params.items() if k not in own})
             _ = genotype(
                 gene_db=gene,
                 sam_path=args.file,
